@@ -3,9 +3,9 @@ package props
 func init() {
 	Mutants = append(Mutants,
 		Mutant{Name: "c11-replacer-drops-slash", Property: "C11", File: "martian/core/stage.go",
-			Old: "strings.NewReplacer(\".\", \"%2E\", \"/\", \"%2F\")", New: "strings.NewReplacer(\".\", \"%2E\")", Expect: "J1"},
+			Old: "strings.NewReplacer(\"%\", \"%25\", \".\", \"%2E\", \"/\", \"%2F\")", New: "strings.NewReplacer(\"%\", \"%25\", \".\", \"%2E\")", Expect: "J1"},
 		Mutant{Name: "c11-replacer-ambiguous", Property: "C11", File: "martian/core/stage.go",
-			Old: "strings.NewReplacer(\".\", \"%2E\", \"/\", \"%2F\")", New: "strings.NewReplacer(\".\", \"_\", \"/\", \"%2F\")", Expect: "J1"},
+			Old: "strings.NewReplacer(\"%\", \"%25\", \".\", \"%2E\", \"/\", \"%2F\")", New: "strings.NewReplacer(\"%\", \"%25\", \".\", \"_\", \"/\", \"%2F\")", Expect: "J1"},
 		Mutant{Name: "c11-uniquifier-width", Property: "C11", File: "martian/core/metadata.go",
 			Old: "fmt.Sprintf(\"%04x%06x\", pid, trimmedTime)", New: "fmt.Sprintf(\"%04x%07x\", pid, trimmedTime)", Expect: "J1"},
 		Mutant{Name: "c11-uniquifier-unmasked-pid", Property: "C11", File: "martian/core/metadata.go",
